@@ -681,7 +681,7 @@ theorem refEx_chain : Chain refExFC.pa := by rw [refExFC_eq]; exact chain_new ..
 theorem refEx_ref : Ref refExFC refExAbs := by
   rw [refExFC_eq, refExAbs_eq]
   exact
-    { spe := rfl, spe_pos := by decide, nodes := rfl, votes := rfl, balances := rfl, justified := rfl,
+    { spe := rfl, nodes := rfl, votes := rfl, balances := rfl, justified := rfl,
       finalized := rfl, pin := rfl, sink := rfl, clean := rfl, jE := rfl, fE := rfl,
       fresh := fun v hv => (by cases hv), next_in := fun v hv => (by cases hv),
       cur_le := fun v hv => (by cases hv), settled := fun _ v hv => (by cases hv) }
@@ -714,7 +714,7 @@ theorem refEx2_ok : WF refExFC2.pa ∧ Chain refExFC2.pa :=
   wf_chain_processBlock _ (wf_new 0 1 0 0 0 .absent) (chain_new 0 1 0 0 0 .absent) 1 2 1 0 0
 
 theorem refEx2_ref : Ref refExFC2 refExAbs2 :=
-  { spe := rfl, spe_pos := by decide, nodes := by decide, votes := rfl, balances := rfl, justified := rfl,
+  { spe := rfl, nodes := by decide, votes := rfl, balances := rfl, justified := rfl,
     finalized := rfl, pin := rfl, sink := rfl, clean := rfl, jE := rfl, fE := rfl,
     fresh := fun v hv => (by cases hv), next_in := fun v hv => (by cases hv),
     cur_le := fun v hv => (by cases hv), settled := fun _ v hv => (by cases hv) }
